@@ -117,6 +117,21 @@ def step(B, G, nsamp=3):
         out = B.scalars(node.apply(None, samples))
         for i in range(nsamp):
             G.eq("re-evaluated %s[%d]" % (tag, i), out[i], f(a.vals[i], b.vals[i]), tol=1e-13)
+    # sharing: one sum object used as the left / right operand of several larger expressions keeps its own value, and each
+    # larger expression has exactly its own terms (expression DAGs, not only trees)
+    s_ = a + 1.5
+    p_ = s_ + b
+    q_ = s_ - b
+    r_ = b - s_
+    t_ = (s_ + b) + s_
+    sv = [x + O.lit(1.5) for x in a.vals]
+    for tag, node, ref in (("shared(a+1.5)", s_, sv), ("shared+b", p_, [x + y for x, y in zip(sv, b.vals)]), ("shared-b", q_, [x - y for x, y in zip(sv, b.vals)]),
+                           ("b-shared", r_, [y - x for x, y in zip(sv, b.vals)]), ("(shared+b)+shared", t_, [x + y + x for x, y in zip(sv, b.vals)]),
+                           ("shared(a+1.5) again", s_, sv)):
+        out = B.scalars(node.apply(None, samples))
+        G.fact("%s.shape" % tag, tuple(np.shape(out)) == (nsamp,), np.shape(out))
+        for i in range(nsamp):
+            G.eq("%s[%d]" % (tag, i), out[i], ref[i], tol=1e-13)
     G.twin("twin_rsub", B.scalars((2 - a).apply(None, samples))[0], a.vals[0] - 2)
 
 
